@@ -364,6 +364,9 @@ func (stub *stub) Start(ctx context.Context) (retErr error) {
 		if retErr != nil {
 			rpcm.Close()
 			stub.rpcm = nil
+			// Closing the multiplexer closes the connection: forget it, so that
+			// the next Start sets up a new one instead of reusing a dead one.
+			stub.conn = nil
 		}
 	}()
 
